@@ -2,6 +2,7 @@ import Drivers.Proto
 import St4sd.Model.FsAtomic
 import St4sd.Model.StatusFile
 import St4sd.Model.FsConc
+import St4sd.Model.C14Listing
 /-! Model driver for property C14.  Every text travels as a JSON array of code points (no
 dependence on JSON string escaping of control / non-BMP characters). -/
 open Lean Proto St4sd.FsAtomic St4sd.StatusFile
@@ -148,6 +149,13 @@ def handle (j : Json) : Except String Json := do
       | _, _ => false
     return jobj [("reads", jarr (reads.map (jopt jY))), ("pyeq_skip_reads", jarr (skips.map (jopt jY))),
                  ("pyeq_skip_same", jarr (same.map jbool)), ("structural_skip_same", jbool ssame)]
+  | "listing" =>
+    -- the lines `key=value` of one key-output of output.txt as the dosini reader (inline comment prefixes `inl`) returns them
+    let inl ← getCps j "inl"
+    let fields ← getPairs j "fields"
+    let outs := St4sd.Listing.readEntry inl (St4sd.Listing.writeEntry fields)
+    return jobj [("read", jarr (outs.map fun o => jopt (fun (p : Pair) => jarr [jcps p.1, jcps p.2]) o)),
+                 ("marked", jarr (fields.map fun p => jbool (St4sd.Listing.hasInlineMark ['#', ';'] p.2)))]
   | "escape" => return jobj [("out", jcps (escape (← getCps j "s")))]
   | "unescape" => return jobj [("out", jopt jcps (unescape (← getCps j "s")))]
   | "encode" => return jobj [("text", jcps (encode (← getPairs j "pairs")))]
